@@ -372,7 +372,9 @@ func checkCellsNotShared(c *Ctx, r *Rec, rule string) {
 		for _, name := range sortedKeys(ms) {
 			fd := ms[name]
 			params := paramObjs(info, fd)
-			fromOperand := func(e ast.Expr) string {
+			var fromOperandIn func(fd *ast.FuncDecl, params []*types.Var, e ast.Expr) string
+			fromOperand := func(e ast.Expr) string { return fromOperandIn(fd, params, e) }
+			fromOperandIn = func(fd *ast.FuncDecl, params []*types.Var, e ast.Expr) string {
 				src := resolveInit(info, fd, e)
 				why := ""
 				ast.Inspect(src, func(x ast.Node) bool {
@@ -559,20 +561,7 @@ func checkCellsNotShared(c *Ctx, r *Rec, rule string) {
 										arg := ast.Unparen(resolveInit(info, cfd, call.Args[pidx]))
 										if _, mname, _, ok := methodCall(arg); ok && mname == "Make" {
 											fresh++
-										} else if cl, ok := arg.(*ast.CallExpr); ok && !nodeHas(cl, func(z ast.Node) bool {
-											id, ok := z.(*ast.Ident)
-											if !ok {
-												return false
-											}
-											for _, cp := range paramObjs(info, cfd) {
-												if info.Uses[id] == types.Object(cp) && (isSequentialParam(cp.Type()) || isGoContainer(cp.Type()) || isCellType(cp.Type())) {
-													return true
-												}
-											}
-											return false
-										}) {
-											fresh++ // built by a call that is handed no operand
-										} else {
+										} else if fromOperandIn(cfd, paramObjs(info, cfd), call.Args[pidx]) != "" {
 											foreign = cname
 										}
 										return true
@@ -584,9 +573,9 @@ func checkCellsNotShared(c *Ctx, r *Rec, rule string) {
 								r.ok(rule, construct, c.pos(at.Pos()), fmt.Sprintf("the association handed to this helper is created at each of its %d call sites", sites))
 								return true
 							case foreign != "":
-								why = "it is handed in by " + foreign + ", which does not create it"
+								why = "it is handed in by " + foreign + ", which takes it from an operand"
 							default:
-								r.skip(rule, construct, c.pos(at.Pos()), "the helper has no call site in the catalog type")
+								r.skip(rule, construct, c.pos(at.Pos()), "where the association handed to this helper comes from is not recognised at every call site")
 								return true
 							}
 						}
